@@ -107,12 +107,21 @@ def d2(mod, run, w):
               Finding("D2-widths-not-from-dimension", fn.name, "header", "widths", "the widths used to write the header are not computed from the dimension value that is returned", loc=loc(puts[0])))
 
 
-def d3(mod, run, w):
+def d3(mod, run, w, cfg=None):
     # (a) the offset polynomial, by E2 over all paths
     fn = need_fn(mod, "getEntryByteOffset")
     eng = E2(mod, sym_args={1: "row", 2: "col", 3: "w", 4: "dim"}); eng.pure = {n for n, s in w.pts.summ.items() if not s.mod}
     try: paths = eng.run("getEntryByteOffset")
-    except Unsupported as e: raise AnalysisBroken("E2: getEntryByteOffset unsupported: %s" % e)
+    except Unsupported as e:
+        # header widths handed around in a small struct returned by value: read the function with its file-local helpers inlined
+        m2, _f2 = with_helpers_inlined(mod, fn, cfg) if cfg else (None, None)
+        if m2 is None: raise AnalysisBroken("E2: getEntryByteOffset unsupported: %s" % e)
+        from ..core import World as _W
+        w2 = _W(m2)
+        eng = E2(m2, sym_args={1: "row", 2: "col", 3: "w", 4: "dim"}); eng.pure = {n for n, s_ in w2.pts.summ.items() if not s_.mod}
+        try: paths = eng.run("getEntryByteOffset")
+        except Unsupported as e2_: raise AnalysisBroken("E2: getEntryByteOffset unsupported: %s" % e2_)
+        run.observe("D3: getEntryByteOffset read with its file-local helpers inlined")
     n = 0
     for p in paths:
         n += 1
@@ -303,7 +312,7 @@ def run(tier):
     for cfg in configs_for(tier):
         mod = lib_module(cfg); w = World(mod)
         d2(mod, run, w)
-        n3 = d3(mod, run, w); n4 = d4(mod, run, w, cfg); n7 = d7(run, cfg)
+        n3 = d3(mod, run, w, cfg); n4 = d4(mod, run, w, cfg); n7 = d7(run, cfg)
         per[cfg] = {"offset_paths": n3, "bit_cell_cases": n4, "pack_round_trip_classes": n7}
         run.floor("pack/unpack classes (%s)" % cfg, n7, 20)
         run.floor("getEntryByteOffset paths (%s)" % cfg, n3, 16)
